@@ -18,6 +18,8 @@ Step(ln) ==
      [] ln.e = "OStart"    -> OStart /\ last'.initial = (ln.a = 1)
      [] ln.e = "OStart2"   -> OStart2
      [] ln.e = "OShutdown" -> OShutdown
+     [] ln.e = "OShutdownNoWait" -> OShutdownNoWait
+     [] ln.e = "OWaitExit" -> OWaitExit
      [] ln.e = "OJoin"     -> OJoin
      [] ln.e = "Enq"       -> Enq(ln.t) /\ last'.d = ln.d /\ last'.m = ln.a /\ last'.len = ln.b /\ last'.first = (ln.c = 1)
      [] ln.e = "Deq"       -> Deq(ln.t) /\ last'.d = ln.d /\ last'.ok = (ln.a = 1) /\ last'.left = ln.b
